@@ -214,6 +214,18 @@ def make_params(rng, default):
     }
 
 
+def boundary_params(rng, P):
+    """End points of the documented parameter ranges (Complementary gain in [0, 1], non-negative weights, full AQUA gains, series order 0 / 1)."""
+    P = {k: (dict(v) if isinstance(v, dict) else v) for k, v in P.items()}
+    P["complementary"]["gain"] = float(rng.choice([0.0, 1.0]))
+    P["aqua"]["alpha"], P["aqua"]["beta"] = 1.0, 1.0          # (0 is refused by AQUA's own argument check: not a documented value)
+    w = np.array([1.0, 1.0])
+    w[int(rng.integers(2))] = 0.0
+    P["roleq"]["weights"], P["oleq"]["weights"] = w.copy(), w[::-1].copy()
+    P["order"] = int(rng.choice([0, 1]))
+    return P
+
+
 def generate(rng, tier, shard, nshards):
     if shard == 0:   # canonical poses every run: level at the four cardinal headings, inverted, vertical (default parameters)
         for kind, psi in [("level", 0.0), ("level", np.pi / 2), ("level", np.pi), ("level", -np.pi / 2), ("inverted", 0.0), ("inverted", 0.7), ("vertical", 0.0), ("pure-pitch", 2.5), ("pure-pitch", -0.6), ("pure-roll", 2.5)]:
@@ -236,7 +248,10 @@ def generate(rng, tier, shard, nshards):
         N = int(rng.integers(2, 81))
         g, a, m = make_history(rng, kind, N)
         default = bool((i // len(KINDS)) % 2 == 0)
-        yield Case("all", "hist:" + kind, g=g, a=a, m=m, P=make_params(rng, default), default=default, seed=int(rng.integers(2**31)))
+        P = make_params(rng, default)
+        if not default and (i // (2 * len(KINDS))) % 2 == 1:      # every other random-parameter round: end points of the documented ranges
+            P = boundary_params(rng, P)
+        yield Case("all", "hist:" + kind, g=g, a=a, m=m, P=P, default=default, seed=int(rng.integers(2**31)))
 
 
 def pose_class(a, m, needs):
